@@ -10,7 +10,7 @@ Extraction "../ocaml/core_model.ml"
   Cursor.get_int Cursor.get_note_length
   Length.calc_length
   NoteSem.pprog NoteSem.denote_prog
-  Compile.compile Compile.run_source LexCore.lex Compile.play_from
+  Compile.compile Compile.compile_lang Compile.run_source LexCore.lex Compile.play_from
   Writer.generate Writer.generate_track Writer.normalize_and_sort Writer.push_delta Event.ev_sysex
   SmfSpec.vlq_decode SmfSpec.decode_track SmfSpec.parse_file SmfSpec.container_ok
   TrackSpec.wire TrackSpec.event_ok TrackSpec.deltas_ok TrackSpec.EOTmsg TrackSpec.abs_ticks
